@@ -18,6 +18,7 @@ import (
 	"net"
 	"os"
 	"sync"
+	"sync/atomic"
 	"time"
 
 	"reservoir/proxy/certs"
@@ -69,6 +70,9 @@ func main() {
 		last := map[string]*tls.Certificate{}
 		enc.Encode(map[string]any{"b": bi + 1, "a": "reset"})
 		idx := func(c *tls.Certificate) int {
+			if c == nil || c.Leaf == nil {
+				return 0 // not a certificate at all
+			}
 			k := c.Leaf.SerialNumber.String()
 			if _, ok := index[k]; !ok {
 				index[k] = len(index) + 1
@@ -111,6 +115,7 @@ func main() {
 				if v, ok := st["n"].(float64); ok {
 					n = int(v)
 				}
+				var panicked atomic.Bool
 				res := make([]*tls.Certificate, n)
 				errs := make([]error, n)
 				var wg sync.WaitGroup
@@ -119,6 +124,12 @@ func main() {
 					wg.Add(1)
 					go func(i int) {
 						defer wg.Done()
+						defer func() {
+							if r := recover(); r != nil {
+								errs[i] = fmt.Errorf("panic: %v", r)
+								panicked.Store(true)
+							}
+						}()
 						<-start
 						res[i], errs[i] = ca.GetCertForHost(target)
 					}(i)
@@ -137,14 +148,23 @@ func main() {
 				}
 				// what the cache holds afterwards: one more (sequential) call, which must not create anything new
 				after := 0
-				if c, err := ca.GetCertForHost(target); err == nil {
-					after = idx(c)
-					last[hid] = c
-					serials = append(serials, after)
-					oks = append(oks, check(c, target))
-				} else {
-					anyErr = true
-				}
+				func() {
+					defer func() {
+						if r := recover(); r != nil {
+							panicked.Store(true)
+							anyErr = true
+						}
+					}()
+					if c, err := ca.GetCertForHost(target); err == nil {
+						after = idx(c)
+						last[hid] = c
+						serials = append(serials, after)
+						oks = append(oks, check(c, target))
+					} else {
+						anyErr = true
+					}
+				}()
+				line["panicked"] = panicked.Load()
 				line["serials"], line["ok"], line["err"], line["after"], line["n"] = serials, oks, anyErr, after, n
 			case "expire":
 				if c := last[hid]; c != nil {
